@@ -77,7 +77,7 @@ contract('ikesa.IkeSa.process_message', params={'data': Bytes}, returns=Opt(Byte
 CONTRACTS['ikesa.IkeSa.process_message'].exc_ensures = ['nothing_changed()']
 
 # ---- timers -----------------------------------------------------------------------------------------------------------
-contract('ikesa.IkeSa.check_retransmission_timer', returns=Opt(Bytes), props=['C13'],
+contract('ikesa.IkeSa.check_retransmission_timer', returns=Opt(Bytes), props=['C13', 'C09'],
          requires=['inv_ikesa(self)'], raises={},
          modifies=['self.state', 'self.retransmissions', 'self.retransmit_at', 'ghost:now'],
          ensures={
@@ -102,7 +102,7 @@ contract('ikesa.IkeSa.generate_dead_peer_detection_request',
          **dict(GEN, ensures=dict(GEN['ensures'], state='self.state == 17',
                                   empty='len(result.encrypted_payloads) == 0')))
 
-contract('ikesa.IkeSa.check_dead_peer_detection_timer', returns=Opt(Bytes), props=['C13'],
+contract('ikesa.IkeSa.check_dead_peer_detection_timer', returns=Opt(Bytes), props=['C13', 'C09'],
          requires=['inv_ikesa(self)'], raises={},
          modifies=['self.request', 'self.state', 'self.deleting_child_sa', 'self.retransmissions',
                    'self.retransmit_at', 'ghost:now', 'ghost:trace'],
